@@ -15,6 +15,7 @@
    rationals (Q).  Everything integral (F2Dot14 raw values, point numbers, deltas, coordinates) is Z.
    No proofs here. *)
 From AV Require Import Base.Prelude Gen.VariationConsts.
+From AV Require Export Model.VariationFields.
 From Coq Require Import QArith Qround.
 Local Open Scope Z_scope.
 
